@@ -4,7 +4,7 @@
     Only statements; proofs are in coq/proofs/. *)
 From Coq Require Import List NArith Bool.
 From TG.Model Require Import CoreAst Scope BangOps Indexer ScopeSpec.
-From TG.Proofs Require Import ScopeBalance ScopeFrame ScopeSim ScopeSimStmt ScopeSimRec PosLog.
+From TG.Proofs Require Import ScopeSimWs ScopeBalance ScopeFrame ScopeSim ScopeSimStmt ScopeSimRec PosLog.
 Import ListNotations.
 Open Scope N_scope.
 
@@ -268,3 +268,35 @@ Example C05_resolution_inheritance_nonvacuous :
   rev (s_uses (snd (iterM (index_stmt [] 80) ex_inherit st0))) = fst (spec_stmts 0 env0 ex_inherit).
 Proof. vm_compute. repeat split; reflexivity. Qed.
 
+(** C05_resolution for a WORKSPACE (partial: no field access `v.f`; includes at the top level of a file only).
+    [spec_uses w] is the declarative resolver on the statements of the root file in which every `include` at the
+    top level stands for the statements of the included file, the first time that file is reached (a file read
+    before - the root included - is skipped; an include that names no file of the workspace is skipped):
+    [ScopeSpec.flat_file] / [spec_flat]; every range carries the number of the file it is written in.  The model
+    pushes the file on its trace, marks it indexed, indexes its statements in the CURRENT scope and pops the file.
+    For every workspace whose (expanded) statements are in the fragment [frag_ws] (the predicate the check evaluates)
+    and well scoped according to the resolver: the uses the model records, in order, each with the file and range
+    of the declaration it resolves to, are exactly the resolver's list, and no "not found" diagnostic exists. *)
+Theorem C05_resolution_workspace_partial : forall w,
+    frag_ws w = true -> well_scoped w = true -> s_bad (index_ws w) = false ->
+    rev (s_uses (index_ws w)) = spec_uses w /\ nf (index_ws w) = [].
+Proof. exact workspace_resolution. Qed.
+Check C05_resolution_workspace_partial : forall w,
+    frag_ws w = true -> well_scoped w = true -> s_bad (index_ws w) = false ->
+    rev (s_uses (index_ws w)) = spec_uses w /\ nf (index_ws w) = [].
+Print Assumptions C05_resolution_workspace_partial.
+
+(** Non-vacuity (REAL parse of a workspace of three files):
+      main.td:  include "a.td"  include "b.td"  include "a.td"  def m : A { int q = x; defvar v = b; }
+      a.td:     class A { int x = 1; }
+      b.td:     include "a.td"  def b : A;
+    a.td is read once (the includes in b.td and the second one in main.td are skipped); 4 uses: `A` in b.td (file 2)
+    and in main.td (file 0) resolve to the class in a.td (file 1), `x` to its field, `b` to the def in b.td. *)
+Definition ex_ws : workspace :=
+  (mkWs [[(SInclude (mkR 0 0 15) (Some 1)); (SInclude (mkR 0 15 30) (Some 2)); (SInclude (mkR 0 30 45) (Some 1)); (SDef (Some (Val (mkR 0 49 51) [(Inner (SId (mkId (mkR 0 49 50) [109])) [])])) (mkR 0 45 84) [(CRef (mkId (mkR 0 53 54) [65]) [] (mkR 0 53 55))] [(IField TyInt (mkId (mkR 0 61 62) [113]) (Some (Val (mkR 0 65 66) [(Inner (SId (mkId (mkR 0 65 66) [120])) [])]))); (IDefvar (mkId (mkR 0 75 76) [118]) (Val (mkR 0 79 80) [(Inner (SId (mkId (mkR 0 79 80) [98])) [])]))])]; [(SClass (mkId (mkR 1 6 7) [65]) None [] [(IField TyInt (mkId (mkR 1 14 15) [120]) (Some (Val (mkR 1 18 19) [(Inner SInt [])])))])]; [(SInclude (mkR 2 0 15) (Some 1)); (SDef (Some (Val (mkR 2 19 21) [(Inner (SId (mkId (mkR 2 19 20) [98])) [])])) (mkR 2 15 26) [(CRef (mkId (mkR 2 23 24) [65]) [] (mkR 2 23 24))] [])]] []).
+Example C05_resolution_workspace_nonvacuous :
+  frag_ws ex_ws = true /\ well_scoped ex_ws = true /\ s_bad (index_ws ex_ws) = false /\
+  spec_uses ex_ws = [(mkR 2 23 24, Some (mkR 1 6 7)); (mkR 0 53 54, Some (mkR 1 6 7));
+                     (mkR 0 65 66, Some (mkR 1 14 15)); (mkR 0 79 80, Some (mkR 2 19 20))] /\
+  rev (s_uses (index_ws ex_ws)) = spec_uses ex_ws.
+Proof. vm_compute. repeat split; reflexivity. Qed.
